@@ -109,7 +109,7 @@ void LabelHandle(tStrComp const* pName, LargeWord Value, Boolean ForceGlobal) {
 
         pLabelElement->Offset = Value;
         if (AddStructElem(pInnermostNamedStruct->StructRec, pLabelElement)) {
-            AddStructSymbol(pLabelElement->pElemName, Value);
+            pLabelEntry = AddStructSymbol(pLabelElement->pElemName, Value);
         }
     }
 
@@ -148,7 +148,8 @@ void LabelModify(LargeWord OldValue, LargeWord NewValue) {
             pLabelElement->Offset = NewValue;
         }
         if (pLabelEntry) {
-            ChangeSymbol(pLabelEntry, NewValue);
+            /* a structure field's symbol includes the offsets of the enclosing structures */
+            ChangeSymbol(pLabelEntry, pLabelElement ? StructSymbolValue(NewValue) : NewValue);
         }
         LabelValue = NewValue;
     }
